@@ -30,3 +30,16 @@ def replay_file(run, path, checkfn):
     case = dict(m["case"])
     case.pop("_src", None)
     checkfn(run, only=[case])
+
+
+def tags_src(run, prop, sigfn=None):
+    """Header forms of the tags that belong to `prop`, written as source and decided by Lexer.tla -> Parser.tla -> Exec.tla
+    (spec/props/Tags_Src.tla); the real code must render what the pipeline says."""
+    r = common.run_tlc("Tags_Src", "Tags_Src", env={"VERIF_SEED": run.seed}, timeout=900)
+    vecs = [v for v in r["lines"] if v.get("prop") == prop]
+    if not vecs:
+        raise common.Infra("Tags_Src has no case for %s" % prop)
+    for v in vecs:
+        v.pop("oom", None)
+    common.replay_vectors(run, vecs, nontrivial=lambda v: True, sigfn=sigfn, check_log=False)
+    run.traces += len(vecs)
